@@ -15,7 +15,7 @@ import shutil
 import tempfile
 import subprocess
 from .. import core
-from ..gen import core1, f1, f2, f3, f4
+from ..gen import core1, f1, f2, f3, f4, f4r
 from ..nslref import joint
 from ..nslref.parse import parse
 from . import famcheck, diffcheck
@@ -214,10 +214,10 @@ def family(tier, seed):
     f4items = [it for it in f4.family("quick") if not any(t.startswith("trigger:") for t in it.tags)]
     if tier == "quick":
         f4items = [it for k, it in enumerate(f4items) if not ({"swizzle-read", "swizzle-write"} & it.tags) or k % 12 == 0]
-        items = base + f4items + f1.generate(seed, 40, depth=3, nmax=3) + f3.random_calls(seed, 15)
+        items = base + f4items + f1.generate(seed, 40, depth=3, nmax=3) + f3.random_calls(seed, 15) + f4r.generate(seed, 30)
         chosen = set(id(i) for i in rnd.sample(items, 110))
         return [(it, id(it) in chosen) for it in items]
-    items = base + f4items + f1.generate(seed, 600, depth=3, nmax=3) + f3.random_calls(seed, 200)
+    items = base + f4items + f1.generate(seed, 600, depth=3, nmax=3) + f3.random_calls(seed, 200) + f4r.generate(seed, 300)
     return [(it, True) for it in items]
 
 
